@@ -102,9 +102,17 @@ class _NPProxy:
             self.view = np.zeros(shape, dtype, *a, **kw)
             return self.view
         size = int(shape)
-        self.buf = np.full(size + 2 * self.pad, GUARD, dtype)
-        self.view = self.buf[self.pad:self.pad + size]
-        self.view[:] = 0
+        if size > (1 << 22):
+            # a huge table (upper bound of 2^27 and more): leave the pages
+            # untouched, only the guard zones are written
+            self.buf = np.zeros(size + 2 * self.pad, dtype)
+            self.buf[:self.pad] = GUARD
+            self.buf[self.pad + size:] = GUARD
+            self.view = self.buf[self.pad:self.pad + size]
+        else:
+            self.buf = np.full(size + 2 * self.pad, GUARD, dtype)
+            self.view = self.buf[self.pad:self.pad + size]
+            self.view[:] = 0
         self.ref = self.buf[:self.pad].tobytes()
         # remember the tables handed out recently (in this process): a
         # solve() that keeps using an OLD table must not escape the guards
@@ -161,6 +169,7 @@ class _Stub:
         self.blocks = 0      # draws of whole blocks (size=...)
         self.terminated = False
         self.shuffles = 0
+        self.best = None     # (x, y) the process holds as best so far
 
     # random source
     def shuffle(self, x):
@@ -217,6 +226,23 @@ class _Stub:
     def get_random(self):
         return self
 
+    # best-so-far interface of a process (a process that continues an
+    # earlier stage already holds a best solution before solve() starts)
+    def seed_best(self, x, y):
+        self.best = (tuple(x), y)
+
+    def has_best(self):
+        return self.best is not None
+
+    def get_best_f(self):
+        return self.best[1] if self.best is not None else float("inf")
+
+    def get_copy_of_best_x(self, x):
+        x[:] = self.best[0]
+
+    def get_copy_of_best_y(self, y):
+        y[:] = self.best[0]
+
     def should_terminate(self):
         if self.terminated or self.asked >= self.horizon:
             return True
@@ -239,6 +265,8 @@ class _Stub:
 
     def _check(self, x, y, initial):
         t = tuple(x.tolist())
+        if self.best is None or y < self.best[1]:
+            self.best = (t, y)
         self.count += 1
         if self.keep:
             self.trace.append((t, int(y)))
@@ -324,12 +352,17 @@ class SolveRunner:
             self.alg = TSPFEA1p1revn(self.inst)
             self.fm = fm
             self.proxy = _NPProxy()
-            self.proxy.pad = max(64, 2 * max(max(r) for r in m) + 8)
+            self.proxy.pad = min(1 << 12,
+                                 max(64, 2 * max(max(r) for r in m) + 8))
 
-    def run(self, start, script, cycle=False, horizon=None, keep=True):
+    def run(self, start, script, cycle=False, horizon=None, keep=True,
+            seeded=False):
         """-> (failing clause or -1, index of the hand-over concerned)."""
         s = self.stub
         s.reset(start, script, cycle, horizon, keep)
+        if seeded:   # the process already knows a shortest tour
+            bx = min(self.lens, key=lambda q: (self.lens[q], q))
+            s.seed_best(bx, self.lens[bx])
         self.error = None
         self.odd = 0
         try:
@@ -363,7 +396,8 @@ class SolveRunner:
 
 
 def _solve_job(a):
-    fam, lo, hi, depth, algos, short = a
+    fam, lo, hi, depth, algos, short = a[:6]
+    seeded = len(a) > 6 and a[6]
     n = family_n(fam)
     perms = list(itertools.permutations(range(n)))
     scripts = list(itertools.product(range(n - 1), repeat=2 * depth))
@@ -389,7 +423,7 @@ def _solve_job(a):
                 attained += 1
             for start in perms:
                 for script in scripts:
-                    kind, at = r.run(start, script)
+                    kind, at = r.run(start, script, seeded=seeded)
                     runs += 1
                     regs += len(r.stub.trace)
                     for b in range(4):
@@ -400,7 +434,7 @@ def _solve_job(a):
                         and r.proxy.buf is not None
                     if guarded:
                         tables += 1
-                    if ok and guarded:
+                    if ok and guarded and len(r.proxy.view) <= (1 << 22):
                         hv = r.proxy.view
                         nz = np.flatnonzero(hv)
                         ok = {int(k): int(hv[k]) for k in nz} == mh
@@ -408,16 +442,18 @@ def _solve_job(a):
                         agree += 1
                     if kind >= 0:
                         mv = last_move(script, at, n)
-                        key = (algo, kind, move_class(mv, n))
+                        key = (algo, kind, move_class(mv, n) + (
+                            "|process seeded with a best tour" if seeded
+                            else ""))
                         if key not in bad:
                             bad[key] = (idx, start, script, at)
     return runs, regs, agree, insts, tables, attained, bad, odd
 
 
-def solve_case(m, algo, start, script):
+def solve_case(m, algo, start, script, seeded=False):
     """Re-run one scripted solve(); returns (kind, at, trace, model)."""
     r = SolveRunner(m, algo)
-    kind, at = r.run(tuple(start), tuple(script))
+    kind, at = r.run(tuple(start), tuple(script), seeded=seeded)
     mt, _ = model_trace(algo, m, start, script)
     tr = list(r.stub.trace)
     if r.error:
@@ -429,7 +465,8 @@ def report_solve(ctx, fam, key, rec):
     algo, kind, mc = key
     idx, start, script, at = rec
     m = family_matrix(fam, idx)
-    k2, at2, trace, mt = solve_case(m, algo, start, script)
+    seeded = "seeded" in mc
+    k2, at2, trace, mt = solve_case(m, algo, start, script, seeded)
     hidden = ""
     if k2 != kind:
         # The enumeration is deterministic (scripted random source), so a
@@ -453,6 +490,7 @@ def report_solve(ctx, fam, key, rec):
         f"reference model sequence={mt}",
         {"engine": "solve", "algo": algo, "matrix": m, "start": list(start),
          "script": list(script), "kind": kind, "observed": trace,
+         "seeded": seeded,
          "model": mt,
          "pytest": PYTEST_SOLVE})
 
@@ -484,15 +522,16 @@ def _odd_caps(ctx, name, odd):
                     "less than stated")
 
 
-def _solve(ctx, fam, depth, lo=0, hi=None, algos=ALGOS, short=False):
+def _solve(ctx, fam, depth, lo=0, hi=None, algos=ALGOS, short=False,
+           seeded=False):
     total = family_size(fam)
     if hi is None:
         hi = total
     span = hi - lo
     nch = max(1, min(ctx.jobs * 4, span))
     b = [lo + span * i // nch for i in range(nch + 1)]
-    jobs = [(fam, b[i], b[i + 1], depth, algos, short) for i in range(nch)
-            if b[i] < b[i + 1]]
+    jobs = [(fam, b[i], b[i + 1], depth, algos, short, seeded)
+            for i in range(nch) if b[i] < b[i + 1]]
     out = pmap(_solve_job, jobs, ctx.jobs)
     runs = sum(r[0] for r in out)
     regs = sum(r[1] for r in out)
@@ -500,7 +539,8 @@ def _solve(ctx, fam, depth, lo=0, hi=None, algos=ALGOS, short=False):
     insts = sum(r[3] for r in out)
     tables = sum(r[4] for r in out)
     att = sum(r[5] for r in out)
-    name = f"solve_{family_name(fam)}_d{depth}"
+    name = f"solve_{family_name(fam)}_d{depth}" + (
+        "_seeded" if seeded else "")
     ctx.add("evaluations", runs)
     ctx.add("transitions", regs)
     ctx.add("traces_validated_against_impl", agree)
@@ -1262,6 +1302,17 @@ def run(ctx: Ctx) -> None:
         r, a = _solve(ctx, fam, depth, 0, hi, algos, short)
         tot_runs += r
         tot_agree += a
+    # a process that already holds a shortest tour when solve() starts
+    # (the algorithm used as a later stage of a hybrid)
+    r, a = _solve(ctx, f4b, 2, 0, None, ALGOS, False, True)
+    tot_runs += r
+    tot_agree += a
+    # FEA on tours whose length bound is 2^27 and more (frequency table of
+    # that many entries, distances still far inside 32 bits)
+    r, a = _solve(ctx, ("sym", 4, [2 ** 25, 2 ** 26]), 2, 0,
+                  16 if quick else 64, ("fea",), False)
+    tot_runs += r
+    tot_agree += a
     # engine 3: long runs (block-wise drawing, counters, caches)
     if quick:
         dplan = [(f4, (5, 26), 9000, False)]
@@ -1318,7 +1369,8 @@ def replay(ctx: Ctx, rep: dict) -> bool:
     m = rep["matrix"]
     if rep["engine"] == "solve":
         kind, at, tr, mt = solve_case(m, rep["algo"], rep["start"],
-                                      rep["script"])
+                                      rep["script"], rep.get("seeded",
+                                                             False))
         print(f"handed over: {tr}\nreference model: {mt}\n"
               f"verdict: {KIND.get(kind, 'holds')}")
         return kind < 0
